@@ -77,6 +77,12 @@ CMDS = {
     "seed": "require Random; Random->set_seed(42); 1",
     "rnd": "require Random; Random->random(1000)",
     "rnd_fail": "require Random; Random->random('ten')",
+    # a session definition that shadows a library function is seen by
+    # functions defined (and already called) earlier
+    "lib_def": "def total(l) sum(l); 1",
+    "lib_call": "total([1, 2, 3])",
+    "lib_shadow": "def sum(l) -1; 1",
+    "lib_shadow_fail": "def sum(l) -2; error 'late'",
     "env2_read": ("E2", "[do limit catch all 'nol' end, "
                         "do a catch all 'noa' end, do w catch all 'now' end]"),
     "env2_fail": ("E2", "def w = 3; error 'boom'"),
@@ -290,6 +296,18 @@ class Sessions(e4.Explorer):
             exp = ERR
         elif name == "loop_err":
             exp = ["rt", "'x'"]
+        elif name == "lib_def":
+            s["total"] = True
+            exp = ["value", "1"]
+        elif name == "lib_call":
+            exp = ERR if not s.get("total") else \
+                ["value", str(s.get("sum") or 6)]
+        elif name == "lib_shadow":
+            s["sum"] = -1
+            exp = ["value", "1"]
+        elif name == "lib_shadow_fail":
+            s["sum"] = -2
+            exp = ["rt", "'late'"]
         elif name == "say":
             exp = ["value", "1"] if s.get("redir") else \
                 ["value", "1", {"output": [[who, "hi\n"]]}]
@@ -443,14 +461,16 @@ def main(tier, seed):
              "read_q", "def_fail", "str_def", "seed", "rnd", "rnd_fail",
              "class_fail", "read_pv", "str_edit", "def_out", "say2",
              "syn_sys", "syn_after", "read_sx", "loop_def", "loop_def_fail",
-             "read_seen")
+             "read_seen", "lib_def", "lib_call", "lib_shadow",
+             "lib_shadow_fail")
     # small closed groups of commands that only interact with each other
     groups = [(["seed", "rnd", "rnd_fail", "div0"], 4),
               (["def_out", "say", "say2", "partial", "div0"], 3),
               (["def_a", "syn_sys", "syn_after", "read_a", "read_sx"], 3),
               (["loop_def", "loop_def_fail", "read_seen", "div0"], 3),
               (["class_fail", "def_fail", "read_pv", "def_a", "str_edit",
-                "str_def"], 3)]
+                "str_def"], 3),
+              (["lib_def", "lib_call", "lib_shadow", "lib_shadow_fail"], 4)]
     if tier == "quick":
         plan1 = [(ORDER, 2), ([c for c in ORDER if c not in light], 3),
                  (["def_a", "read_a", "partial", "call_g",
